@@ -20,7 +20,7 @@ var ghostBuiltins = map[string]bool{
 	"implies": true, "iff": true, "forall": true, "exists": true, "old": true, "has": true,
 	"lo": true, "hi": true, "at": true, "held": true, "typeIs": true, "gint": true, "allocated": true,
 	"sameArray": true, "refOf": true, "nonNil": true, "dynRef": true, "before": true,
-	"glen": true, "gentry": true, "gfield": true, "gfieldS": true, "mulGE": true, "ptrAt": true, "sliceRef": true, "elemAt": true, "smHas": true, "smIs": true, "smGet": true, "gclock": true, "chanRef": true, "timeNanos": true, "mapRef": true, "live": true, "gsHas": true, "gsCard": true, "gsOnly": true, "gsSame": true, "gsTagged": true, "gsOthersSameByType": true, "gsIsAdd": true, "gsIsRemove": true, "gsOthersSame": true,
+	"glen": true, "gentry": true, "gfield": true, "gfieldS": true, "mulGE": true, "ptrAt": true, "sliceRef": true, "elemAt": true, "smHas": true, "smIs": true, "smGet": true, "gclock": true, "chanRef": true, "timeNanos": true, "mapRef": true, "live": true, "gsHas": true, "gsCard": true, "gsOnly": true, "gsSame": true, "onceDone": true, "chanClosed": true, "same": true, "gsTagged": true, "gsOthersSameByType": true, "gsIsAdd": true, "gsIsRemove": true, "gsOthersSame": true,
 }
 
 func (x *Exec) isGhostBuiltin(fn *ssa.Function) bool {
@@ -85,6 +85,11 @@ func (x *Exec) callCommon(f *frame, c *ssa.CallCommon, args []*Val, st *State, p
 	case *ssa.MakeClosure:
 		cv := x.val(f, callee)
 		return x.callStatic(callee.Fn.(*ssa.Function), args, cv.Fn.Bindings, st, pos)
+	}
+	// a context.CancelFunc only affects contexts, which are not modelled
+	if isCancelFunc(c.Value.Type()) {
+		x.oblige(st, "nil", "", "call of a nil context.CancelFunc", "true", pos)
+		return x.freshResults(st, sig, "cancel")
 	}
 	fv := x.val(f, c.Value)
 	if fv.K == KFunc && fv.Fn != nil && fv.Fn.Fn == nil && fv.Fn.Harmless {
@@ -485,6 +490,22 @@ func (x *Exec) ghost(name string, fn *ssa.Function, args []*Val, st *State, pos 
 		}
 		return scalar(boolT, and(eq(sel(g.has, obj), sto(sel(o.has, obj), pay, "true")),
 			eq(sel(g.card, obj), ite(was, oc, "(+ "+oc+" 1)")), eq(sel(g.etag, obj), tag)), "Bool")
+	case "onceDone":
+		h, _, _ := x.onceComp(st, args[0].P)
+		return scalar(boolT, sel(x.use(h), args[0].P.Ref), "Bool")
+	case "chanClosed":
+		h := x.heapSym(st, "G|chanclosed", compInfo{sort: "(Array Int Bool)"})
+		x.keyInfo["G|chanclosed"] = compInfo{sort: "(Array Int Bool)"}
+		return scalar(boolT, sel(x.use(h), args[0].S), "Bool")
+	case "same":
+		// component-wise equality of two values of the same type (also for types Go cannot compare:
+		// a slice field is the same slice when it has the same array, offset, length and capacity)
+		f1, f2 := x.flatten(st, args[0]), x.flatten(st, args[1])
+		var cs []string
+		for i := range f1 {
+			cs = append(cs, eq(f1[i], f2[i]))
+		}
+		return scalar(boolT, and(cs...), "Bool")
 	case "gsTagged":
 		// the set's element type is exactly T (it has been filled at least once)
 		fam := x.strOf(args[0].S)
@@ -632,6 +653,11 @@ func (x *Exec) refTerm(st *State, p *Val) string {
 	switch p.K {
 	case KPtr:
 		if p.P.Kind == PHeap && len(p.P.Path) == 0 {
+			return p.P.Ref
+		}
+		// an interior pointer (field of an object, element of an array) lives as long as the
+		// object or array it points into
+		if p.P.Kind == PHeap || p.P.Kind == PElem {
 			return p.P.Ref
 		}
 	case KSlice:
@@ -1327,3 +1353,8 @@ func (x *Exec) logTopBefore(st *State) string {
 	return x.top0
 }
 
+
+func isCancelFunc(t types.Type) bool {
+	n, ok := t.(*types.Named)
+	return ok && n.Obj().Pkg() != nil && n.Obj().Pkg().Path() == "context" && n.Obj().Name() == "CancelFunc"
+}
